@@ -15,6 +15,7 @@ Record reproduced (o : options) (p p2 : population) (x x2 : executor) (babies : 
   rp_orgs : p_orgs p2 = p_orgs p;
   rp_old : forall k, In k (p_orgs p) -> k < p_next_key p;
   rp_bound : hbound (p_heap p2) (p_next_key p2);
+  rp_fresh : forall k, In k babies -> hview o_elim (p_heap p2) k = Some false;
   rp_last : p_last_species p <= p_last_species p2;
   rp_ids : forall s, In s (all_sp p2) -> sp_id s <= p_last_species p2;
   rp_listed : forall k, In k babies -> exists y, In y (p_species p2) /\ In k (sp_orgs y);
@@ -34,7 +35,7 @@ Proof.
   mbind H as r s1 Hr H. destruct r as [[[h1 key1] babies] best_rep].
   pose proof (reproduce_all_ok o gen (p_species p ++ p_detached p) sorted (x_best_id x) (p_species p)
                                (p_heap p) (p_next_key p) [] (x_best_reproduced x) B _ _ _ Hr) as R.
-  cbn in R. destruct R as ([R1 R2 R3 R4] & -> & Ek & ->).
+  cbn in R. destruct R as ([R1 R2 R3 R4 R5] & -> & Ek & ->).
   destruct (negb _) eqn:Ec; [discriminate|]. apply negb_false_iff in Ec. apply Z.eqb_eq in Ec.
   mbind H as p2' s2 Hs H. apply lift_ok in Hs. destruct Hs as [Hs ->].
   apply ret_ok in H. destruct H as [H _]. injection H as <- <-.
@@ -48,8 +49,8 @@ Proof.
   unfold speciate in Hs. destruct (zrange (p_next_key p) key1) as [|b0 bs0] eqn:Eb; [discriminate|].
   rewrite <- Eb in *. clear Eb b0 bs0.
   assert (W1 : Wf (all_sp p1) (p_heap p1) (fun k => In k (p_orgs p))).
-  { change (all_sp p1) with (all_sp p). cbn. eapply Wf_ext; eauto. }
-  destruct (speciate_loop_ok _ _ _ _ _ Hs W1) as [W2 [S1 S2 S3 S4 S5 S6 S7 S8 S9 S10]].
+  { change (all_sp p1) with (all_sp p). cbn. eapply Wf_ext; [exact W|apply hext_pe_species, R1]. }
+  destruct (speciate_loop_ok _ _ _ _ _ Hs W1) as [W2 [S1 S2 S3 S3' S4 S5 S6 S7 S8 S9 S10]].
   - intros k Hk Ho. apply zrange_in in Hk. apply Hold in Ho. lia.
   - apply zrange_nodup.
   - exact Hl.
@@ -57,6 +58,7 @@ Proof.
     + now rewrite S9.
     + rewrite S9. exact R2.
     + eapply hbound_frame; [exact S3|]. now rewrite S9.
+    + intros k Hk. apply zrange_in in Hk. rewrite S3'. now apply R5.
 Qed.
 
 (* ---------- purgeOldGeneration ---------- *)
@@ -102,7 +104,7 @@ Qed.
 
 Lemma renumber_ok : forall ks h c h' c',
   renumber h ks c = Ok (h', c') ->
-  c' = c + zlen ks /\ hframe o_species h h' /\ (forall k, ~ In k ks -> hget h' k = hget h k) /\
+  c' = c + zlen ks /\ hframe pe h h' /\ (forall k, ~ In k ks -> hget h' k = hget h k) /\
   (NoDup ks -> map (gid_at h') ks = zrange c c').
 Proof.
   induction ks as [|k ks IH]; intros h c h' c' H; cbn [renumber] in H.
@@ -110,8 +112,8 @@ Proof.
     intros _. now rewrite zrange_nil.
   - rbind H as x Hx. pose proof (hget_key _ _ _ Hx) as Ek.
     apply IH in H. destruct H as (E & F & Ho & Hg).
-    assert (F1 : hframe o_species h (hset h (o_with_genome x (with_id (o_genome x) c)))).
-    { apply (hframe_hset_get o_species _ x); [|reflexivity]. cbn. now rewrite Ek. }
+    assert (F1 : hframe pe h (hset h (o_with_genome x (with_id (o_genome x) c)))).
+    { apply (hframe_hset_get pe _ x); [|reflexivity]. cbn. now rewrite Ek. }
     unfold zlen in *. cbn [length]. splits.
     + lia.
     + eapply hframe_trans; eauto.
@@ -123,7 +125,7 @@ Qed.
 
 Lemma purge_or_age_ok : forall l h c acc l' h' orgs',
   purge_or_age l h c acc = Ok (l', h', orgs') ->
-  l' = map age1 (filter nonempty l) /\ orgs' = acc ++ members l /\ hframe o_species h h' /\
+  l' = map age1 (filter nonempty l) /\ orgs' = acc ++ members l /\ hframe pe h h' /\
   (forall k, ~ In k (members l) -> hget h' k = hget h k) /\
   (NoDup (members l) -> map (gid_at h') (members l) = zrange c (c + zlen (members l))).
 Proof.
@@ -184,6 +186,7 @@ Record finalized (p2 p' : population) (babies : list Z) : Prop := {
   fn_gids : map (gid_at (p_heap p')) (p_orgs p') = zrange 0 (zlen (p_orgs p'));
   fn_species : exists l3, map meta l3 = map meta (p_species p2) /\
                           p_species p' = map age1 (filter nonempty l3);
+  fn_fresh : Fresh p';
   fn_last : p_last_species p' = p_last_species p2;
   fn_key : p_next_key p' = p_next_key p2 }.
 
@@ -194,9 +197,10 @@ Lemma finalize_ok p2 x2 s p' s' (babies : list Z) :
   (forall k, In k babies -> exists y, In y (p_species p2) /\ In k (sp_orgs y)) ->
   (forall y, In y (all_sp p2) -> sp_id y <= p_last_species p2) ->
   hbound (p_heap p2) (p_next_key p2) ->
+  (forall k, In k babies -> hview o_elim (p_heap p2) k = Some false) ->
   finalized p2 p' babies.
 Proof.
-  unfold finalize. intros H W Hn Hnb Hdis Hlist Hl Hb.
+  unfold finalize. intros H W Hn Hnb Hdis Hlist Hl Hb Hfr.
   mbind H as p3 s1 H1 H. apply lift_ok in H1. destruct H1 as [H1 ->].
   mbind H as r s2 H2 H. apply lift_ok in H2. destruct H2 as [H2 ->]. destruct r as [[sps h] orgs].
   destruct (negb _ && negb _); [discriminate|]. injection H as <- _.
@@ -243,7 +247,7 @@ Proof.
         eapply wf_nodup; eauto.
       * intros y k Hy Hk. apply Efil in Hy. destruct Hy as (y0 & Hy0 & _ & ->).
         rewrite (proj2 (Eage y0)) in Hk. rewrite (proj1 (Eage y0)).
-        pose proof (wf_link _ _ _ W3' y0 k Hy0 Hk) as E. unfold sp_of in *. rewrite <- F in E.
+        pose proof (wf_link _ _ _ W3' y0 k Hy0 Hk) as E. unfold sp_of in *. rewrite <- (hframe_pe_species _ _ F) in E.
         unfold hview in *. rewrite Hlive; [exact E|]. apply members_in. eauto.
       * intros y k Hy Hk. apply Efil in Hy. destruct Hy as (y0 & Hy0 & _ & ->).
         rewrite (proj2 (Eage y0)) in Hk. apply members_in. eauto.
@@ -264,7 +268,7 @@ Proof.
       * rewrite (Hg Nm). apply zrange_nodup.
       * apply map_ext_in. intros k Hk. unfold gid_at. now rewrite Hlive.
     + rewrite En3. intros k x E. apply Hlive' in E. pose proof (hview_get o_species _ _ _ E) as V.
-      rewrite F, Eh3 in V. apply hview_some in V. destruct V as (z & Hz & _). eapply Hb; eauto.
+      rewrite (hframe_pe_species _ _ F), Eh3 in V. apply hview_some in V. destruct V as (z & Hz & _). eapply Hb; eauto.
     + reflexivity.
   - apply NoDup_Permutation; auto. intros k. split.
     + intros Hk. apply members_in in Hk. destruct Hk as (y & Hy & Hk).
@@ -274,6 +278,12 @@ Proof.
     + rewrite (Hg Nm). now rewrite Z.add_0_l.
     + apply map_ext_in. intros k Hk. unfold gid_at. now rewrite Hlive.
   - exists l3. split; [exact Em3|reflexivity].
+  - intros k x Hk Hx. cbn in Hk, Hx. rewrite (Hlive _ Hk) in Hx.
+    assert (Hbk : In k babies).
+    { apply members_in in Hk. destruct Hk as (y & Hy & Hk).
+      apply (wf_incl _ _ _ W3 y k); [unfold all_sp; apply in_or_app; now left|assumption]. }
+    pose proof (Hfr _ Hbk) as V. rewrite <- Eh3, <- (hframe_pe_elim _ _ F) in V.
+    unfold hview in V. rewrite Hx in V. now injection V.
   - exact El3.
   - exact En3.
 Qed.
